@@ -209,7 +209,7 @@ def haltOp (c : Cl) (k id : String) : Cl × String :=
           match granted with
           | none => (c, "err")
           | some (c, t, ch) =>
-            let n' := { n with eng := { n.eng with remoteHalt := true }, remoteId := some id }
+            let n' := { n with eng := { n.eng with remoteHalt := true, remoteHaltTxid := t }, remoteId := some id }
             let c := c.setNode k n'
             if n.eng.posTxid = t ∧ n.eng.posChk = ch then (c, s!"ok pos={t}:{EngineD.hex16 ch}")
             else (releaseHalt c, "err"))
@@ -318,6 +318,12 @@ def step (c : Cl) (line : String) : Cl × String :=
   | ["halt", k, id] => haltOp c k id
   -- the same request issued while an application transaction on the primary is still open: it
   -- queues behind the application's locks and is answered once they are released (`halt-join`)
+  -- delivery of the stream to node k is delayed / resumed: replication is atomic in this model, the
+  -- scripts observe node k only after the release
+  | ["stream-hold", k] | ["stream-release", k] =>
+    (match k.toNat? >>= fun k => c.nodes[k]? with
+     | some n => if n.up then (c, "ok") else (c, "bad-op")
+     | none => (c, "bad-op"))
   | ["halt-bg", k, id] =>
     (match k.toNat? >>= fun k => c.nodes[k]?.map fun n => (k, n) with
      | some (k, n) => if !n.up || !n.eng.hasDB then (c, "bad-op") else ({ c with bgHalt := (k, id) :: c.bgHalt.filter (·.1 ≠ k) }, "started")
